@@ -46,7 +46,7 @@ def warm() -> None:
 
 def generate(rng, tier) -> dict:
     name = rng.choice(NAMES)
-    nbits = rng.choice([1, 2, 4, 8, 8, 32, 32])
+    nbits = rng.choice([1, 2, 4, 8, 8, 32, 32])  # the quantifier: depths {1,2,4,8,32} (16-bit blocks are refused by the compiled kernels)
     chans = [c for c in (1, 2, 4, 6, 8, 12, 16) if (c * nbits) % 8 == 0]
     if name == "dedisperse":
         chans = [c for c in chans if c > 1]
@@ -65,6 +65,8 @@ def generate(rng, tier) -> dict:
         spec.update(T.DISP_BAND)
         spec["foff"] = -10.0 * 16 / max(16, nchans) if spec.get("big") else T.DISP_BAND["foff"]
     N = sum(counts)
+    if nbits in (8, 16) and rng.random() < 0.3 and sum(counts) * ((1 << nbits) - 1) < (1 << 24):
+        spec["mode"] = "bits"  # the whole range of the sample type (sums stay below 2^24: still exact in float32)
     r = rng.random()
     if r < 0.35:
         start, nsamps = 0, None
@@ -291,6 +293,8 @@ def execute(sc, ctx) -> None:
         ctx.probe("big-blocks")
     if spec.get("mode") == "gappy":
         ctx.probe("data-with-blank-stretches")
+    if spec.get("mode") == "bits":
+        ctx.probe("full-range-data")
     ctx.sig += [name, f"nbits{nbits}", "multi" if len(spec["nsamps"]) > 1 else "single"]
     bounds = list(np.cumsum(spec["nsamps"]))[:-1]
 
